@@ -102,7 +102,7 @@ def run_job(job, ctx):
         return
     if job["kind"] == "ops":
         m = Monitor(job["shape"], job["leaf"], job["tier"])
-        n, nops = W.explore(ctx, m.spec, job["leaf"], job["depth"], m, tier=job["tier"])
+        n, nops = W.explore(ctx, m.spec, job["leaf"], job["depth"], m, tier=job["tier"], share_schema=True)
         ctx.sample({"shape": job["shape"], "leaf": job["leaf"], "states": n, "operations_per_state": nops})
     elif job["kind"] == "docs":
         _docs(job, ctx)
